@@ -168,14 +168,26 @@ def fromUnpackL (cls : String) (ul : List Val) : Option (List Val) :=
   | "SimilarityResponsePayload", ul => simRespUnpack ul
   | _, _ => none
 
-/-- VariablePayload (interpreted or compiled, no hooks): group 8 attributes per `bits` -/
+/-- the next 8 attributes, which must be atoms (the 8 names of one `bits` format) -/
+def take8 : List Val → Option (List Atom × List Val)
+  | .atom b7 :: .atom b6 :: .atom b5 :: .atom b4 :: .atom b3 :: .atom b2 :: .atom b1 :: .atom b0 :: r =>
+    some ([b7, b6, b5, b4, b3, b2, b1, b0], r)
+  | _ => none
+
+/-- VariablePayload.to_pack_list (interpreted or compiled, no hooks) on the attribute values in `names` order:
+    one pack-list entry per format, 8 attributes per `bits` -/
 def vpPack : FmtList → List Val → Option (List Val)
   | .nil, [] => some []
-  | .cons .bits fs, .atom b7 :: .atom b6 :: .atom b5 :: .atom b4 :: .atom b3 :: .atom b2 :: .atom b1 :: .atom b0 :: r =>
-    (vpPack fs r).map (Val.tuple [b7, b6, b5, b4, b3, b2, b1, b0] :: ·)
-  | .cons .bits _, _ => none
-  | .cons _ fs, v :: r => (vpPack fs r).map (v :: ·)
-  | _, _ => none
+  | .nil, _ :: _ => none
+  | .cons f fs, a =>
+    if f = .bits then
+      match take8 a with
+      | some (bs, r) => (vpPack fs r).map (Val.tuple bs :: ·)
+      | none => none
+    else
+      match a with
+      | v :: r => (vpPack fs r).map (v :: ·)
+      | [] => none
 
 def isOld (cls : String) : Bool :=
   match findPayload cls with
@@ -207,5 +219,10 @@ def cellToBin (pre : Bytes) (cid : Nat) (plaintext relayEarly : Bool) (msg : Byt
 def cellFromBin (pkt : Bytes) : Except Err (Nat × Bool × Bool × Bytes) := do
   let b ← readAt pkt 23 6
   .ok (beDec (b.take 4), beDec ((b.drop 4).take 1) != 0, beDec ((b.drop 5).take 1) != 0, pkt.drop 29)
+
+/-- `unwrap(prefix)`: prefix ++ message[0:1] ++ pack("!I", circuit_id) ++ message[1:] -/
+def cellUnwrap (pre : Bytes) (cid : Nat) (msg : Bytes) : Except Err Bytes := do
+  let c ← packUint 4 cid
+  .ok (pre ++ msg.take 1 ++ c ++ msg.drop 1)
 
 end Ipv8.C02.Old
